@@ -48,6 +48,7 @@ class Result:
         self.outcomes = set()  # digests of distinct observed outcomes (vacuity guard)
         self.samples = []
         self.violations = []
+        self._keys = set()
         self.n_violations = 0
         self.notes = []
         self.caps = []  # caps hit -> never called exhaustive
@@ -88,10 +89,14 @@ class Result:
         """key: stable case identifier (used for known-finding matching);
         payload: whatever replay() of the check needs to re-run this one case."""
         self.n_violations += 1
+        key = str(key)
+        if key in self._keys:  # one stored example per distinct key (so a frequent finding cannot crowd out others)
+            return
         if len(self.violations) < MAX_VIOL_PER_RESULT:
-            self.violations.append(
-                {"key": str(key), "msg": str(msg), "payload": _jsonable(payload)}
-            )
+            self._keys.add(key)
+            self.violations.append({"key": key, "msg": str(msg), "payload": _jsonable(payload)})
+        else:
+            self.cap("more than %d distinct violation keys in one job" % MAX_VIOL_PER_RESULT)
 
     # -- merging ---------------------------------------------------------
     def merge(self, o):
@@ -107,7 +112,10 @@ class Result:
                 self.samples.append(s)
         self.n_violations += o.n_violations
         for v in o.violations:
-            if len(self.violations) < 200:
+            if v["key"] in self._keys:
+                continue
+            if len(self.violations) < 400:
+                self._keys.add(v["key"])
                 self.violations.append(v)
         for n in o.notes:
             self.note(n)
